@@ -85,35 +85,36 @@ type ModelVar struct {
 
 // Unit: verification of one function (or one lemma).
 type Unit struct {
-	cx       *Ctx
-	enc      *Enc
-	assumes  []string
-	obls     []*Obl
-	heapSort map[string]string
-	dry      int
-	epochCtr int
-	ghostTy  map[string]types.Type
-	freshRefs map[string]bool
-	closureSeen map[string]bool
-	heapPtr  map[string]string // heaps whose cells hold references: "cell" | "mapval" | "arr" | "slicecell" | "slicearr" | "slicemapval"
+	cx            *Ctx
+	enc           *Enc
+	assumes       []string
+	obls          []*Obl
+	heapSort      map[string]string
+	dry           int
+	epochCtr      int
+	ghostTy       map[string]types.Type
+	freshRefs     map[string]bool
+	closureSeen   map[string]bool
+	heapPtr       map[string]string // heaps whose cells hold references: "cell" | "mapval" | "arr" | "slicecell" | "slicearr" | "slicemapval"
 	pendingBounds []string
-	dryRows  map[string]map[string]bool
-	dryWhole map[string]bool
-	dryFresh map[string]bool
-	blacklist  map[string]bool
-	autoFailed []string
-	notes    map[string]bool
-	errs     []string
-	fnName   string
-	nframes  int
-	oblSeq   map[string]int
-	inputs   []ModelVar
-	callsInlined map[string]bool
+	dryRows       map[string]map[string]bool
+	dryWhole      map[string]bool
+	dryFresh      map[string]bool
+	blacklist     map[string]bool
+	autoFailed    []string
+	pendingAuto   []pendingAuto
+	notes         map[string]bool
+	errs          []string
+	fnName        string
+	nframes       int
+	oblSeq        map[string]int
+	inputs        []ModelVar
+	callsInlined  map[string]bool
 	callsContract map[string]bool
-	callsTrusted map[string]bool
-	callsHavoc map[string]bool
+	callsTrusted  map[string]bool
+	callsHavoc    map[string]bool
 	callsNoEffect map[string]bool
-	abstracted bool
+	abstracted    bool
 }
 
 func (u *Unit) note(f string, a ...any) { u.notes[fmt.Sprintf(f, a...)] = true }
@@ -647,4 +648,9 @@ func (u *Unit) mergeStates(ins []*State) *State {
 		out.heaps[k] = c
 	}
 	return out
+}
+
+type pendingAuto struct {
+	o   *Obl
+	key string
 }
